@@ -99,11 +99,37 @@ fn template_program(rng: &mut Rng) -> (String, String) {
   }
 }
 
+/// Relational and set programs with several rows/elements on each side: the steps that build
+/// their output from hash-based bookkeeping only show an order dependence when more than one
+/// row/element is involved (the suite's join tests leave exactly one unmatched row).
+fn relational_program(rng: &mut Rng) -> (String, String) {
+  let mut ids = |rng: &mut Rng| -> Vec<u64> { let mut v: Vec<u64> = (1..=9).collect(); rng.shuffle(&mut v); let n = 1 + rng.usize(6); let mut v: Vec<u64> = v[..n].to_vec(); if rng.chance(1, 2) { v.sort(); } v };
+  match rng.below(4) {
+    0 | 1 | 2 => {
+      let (a, b) = (ids(rng), ids(rng));
+      let ops = [("inner", "⋈"), ("left-outer", "⟕"), ("right-outer", "⟖"), ("full-outer", "⟗"), ("left-semi", "⋉"), ("left-anti", "▷")];
+      let (on, op) = *rng.pick(&ops);
+      let ta = format!("A := |id<u64> a<u64>| {} |", a.iter().map(|i| format!("{} {}", i, i * 10)).collect::<Vec<_>>().join(" | "));
+      let tb = format!("B := |id<u64> b<u64>| {} |", b.iter().map(|i| format!("{} {}", i, i * 100)).collect::<Vec<_>>().join(" | "));
+      let tail = match rng.below(3) { 0 => "\nK := J.id".to_string(), _ => String::new() };
+      (format!("relational-{}-join", on), format!("{}\n{}\nJ := A {} B{}", ta, tb, op, tail))
+    }
+    _ => {
+      let (a, b) = (ids(rng), ids(rng));
+      let (on, op) = *rng.pick(&[("union", "∪"), ("intersection", "∩"), ("difference", "∖")]);
+      let sa = format!("A := {{{}}}", a.iter().map(|i| i.to_string()).collect::<Vec<_>>().join(", "));
+      let sb = format!("B := {{{}}}", b.iter().map(|i| i.to_string()).collect::<Vec<_>>().join(", "));
+      (format!("relational-set-{}", on), format!("{}\n{}\nU := A {} B", sa, sb, op))
+    }
+  }
+}
+
 pub fn plan(seed: u64, k: u64, corpus: &[(String, String)]) -> Plan {
   let mut rng = Rng::for_run(seed, WORLD_ID * 16, k);
   let (name, text) = if (k as usize) < corpus.len() { corpus[k as usize].clone() }
     else { match rng.below(10) {
-      0..=2 => template_program(&mut rng),
+      0 | 1 => template_program(&mut rng),
+      2 => relational_program(&mut rng),
       3..=5 => ("generated-with-assignments".to_string(), generated_program(&mut rng, true)),
       6 => ("generated-no-assignments".to_string(), generated_program(&mut rng, false)),
       _ => corpus[rng.usize(corpus.len())].clone(),
